@@ -39,3 +39,21 @@ func (c *ThrottlingChecker) VerifLastPassed() int64 { return atomic.LoadInt64(&c
 
 // VerifLastPassedAddr is the address of that word.
 func (c *ThrottlingChecker) VerifLastPassedAddr() unsafe.Pointer { return unsafe.Pointer(&c.lastPassedTime) }
+
+// VerifWarmUp is a copy of a warm-up calculator's private state.
+type VerifWarmUp struct {
+	Stored       int64
+	LastFilled   uint64
+	WarningToken uint64
+	MaxToken     uint64
+	Slope        float64
+}
+
+// VerifWarmUpOf returns the warm-up state of a controller (ok=false if it has none).
+func VerifWarmUpOf(tc *TrafficShapingController) (VerifWarmUp, bool) {
+	c, ok := tc.flowCalculator.(*WarmUpTrafficShapingCalculator)
+	if !ok {
+		return VerifWarmUp{}, false
+	}
+	return VerifWarmUp{atomic.LoadInt64(&c.storedTokens), atomic.LoadUint64(&c.lastFilledTime), c.warningToken, c.maxToken, c.slope}, true
+}
